@@ -1,7 +1,7 @@
 """Parsing and comparing traces (implementation output vs model output)."""
 import re
 
-NAMED = {"cb", "dr", "heap", "live", "dd", "costs", "au"}
+NAMED = {"cb", "dr", "heap", "live", "dd", "costs", "au", "sz"}
 _named_re = re.compile(r"^([a-z]+)=(.*)$", re.S)
 
 
